@@ -133,8 +133,9 @@ impl ShortFileName {
                     return Err(FilenameError::InvalidCharacter);
                 }
                 '.' => {
-                    // Denotes the start of the file extension
-                    if (1..=Self::BASE_LEN).contains(&idx) {
+                    // Denotes the start of the file extension. Only one
+                    // period is allowed in a short file name.
+                    if !seen_dot && (1..=Self::BASE_LEN).contains(&idx) {
                         idx = Self::BASE_LEN;
                         seen_dot = true;
                     } else {
